@@ -4,6 +4,7 @@ package engines
 import (
 	_ "verif/sim/engines/dkgsim"
 	_ "verif/sim/engines/dsssim"
+	_ "verif/sim/engines/heterosim"
 	_ "verif/sim/engines/proofsim"
 	_ "verif/sim/engines/pvsssim"
 	_ "verif/sim/engines/signsim"
